@@ -104,7 +104,7 @@ class TraceCorr:
     """Correspondence of one harness with one driver area, on generated + corpus op sequences."""
 
     def __init__(self, work, res, pid, harness, area, tier, name=None, gen_args=(), run_args=(),
-                 env=None, race=False, timeout=None, yielding=0, spec_only=False):
+                 env=None, race=False, timeout=None, yielding=0, spec_only=False, evinst=False):
         self.work, self.res, self.pid = work, res, pid
         self.harness, self.area, self.tier = harness, area, tier
         self.name = name or harness
@@ -115,6 +115,8 @@ class TraceCorr:
         # (harness/yieldinst) with VERIF_YIELD=<permille>; spec_only: judge by the specification only
         self.yielding = int(yielding)
         self.spec_only = spec_only
+        # event-logging twin of the scratch copy (harness/evinst): the harness observes single synchronisation actions
+        self.evinst = bool(evinst)
         if self.yielding:
             self.env["VERIF_YIELD"] = str(self.yielding)
         # a wedged implementation must not stall a check for long: bound every harness/driver process
@@ -171,7 +173,7 @@ class TraceCorr:
     def run(self, proofs_ok=True):
         res = self.res
         cname = "correspondence %s (harness %s vs driver area %s)" % (self.name, self.harness, self.area)
-        self.bin, blog = self.work.build(self.harness, race=self.race, yielding=bool(self.yielding))
+        self.bin, blog = self.work.build(self.harness, race=self.race, yielding=bool(self.yielding), evinst=self.evinst)
         if self.bin is None:
             res.obligation(cname, False, log=blog[-3000:])
             res.violation("the correspondence harness no longer builds against the current tree (an API or "
